@@ -3,12 +3,8 @@
    '\n', '^') (Model/Writer.v), which supplies the SE / GE / IEA trailers and
    their counts.
 
-   Iteration order of Python sets, modelled as SORTED order (the comparison
-   harness makes the implementation iterate the same way at exactly these
-   places):
-     - visit_seg: `for err_cde in list(set(errors))`
-     - __get_isa_errors returns list(set(err_codes)) and visit_root_post uses
-       element [0] of it as the TA1 note code. *)
+   Since fix 45b72b1: visit_seg iterates sorted(set(errors)); __get_isa_errors returns the
+   unique codes in first-seen order and visit_root_post uses element [0] as the TA1 note code. *)
 From Coq Require Import String.
 From PX.Lib Require Import Base PyStr PyInt.
 From PX.Model Require Import Path Segment Reader Writer Errh Ack997.
@@ -91,10 +87,12 @@ Definition visit_root_pre9 (ck : clock) : SE v999 unit :=
     seg_set_opt s "08" (Some vriic));
   wr_write gs_seg.
 
-(* __get_isa_errors (98-117): list(set(err_codes)), here in sorted order *)
+(* __get_isa_errors: unique codes, first occurrence kept, in list order *)
+Definition dedup_first (xs : list str) : list str :=
+  fold_left (fun acc x => if mem_str x acc then acc else acc ++ [x]) xs [].
 Definition get_isa_errors9 (h : errh) (n : isa_node) : result (list str) :=
   do codes <- isa_err_codes h n;
-  Ok (sorted_set codes).
+  Ok (dedup_first codes).
 
 (* visit_root_post (119-146) *)
 Definition visit_root_post9 : SE v999 unit :=
